@@ -874,16 +874,21 @@ def corpus():
 # ----------------------------------------------------------------------------- implementation side
 
 
-def _exc_kind(e):
+def _exc_kind(e, state=None):
+    """classify an exception by its TYPE and by the observable STATE it was raised in (`state`), never by the
+    wording of its message:
+      ValueError   out of dictionary_to_index_maps  -> noKeys iff both key lists are None, else allZero
+                   out of a run                      -> allZero iff some looped input is an empty list
+      AttributeError out of a run of a lists-form loop whose collector labels are not distinct -> LabelClash"""
     name = type(e).__name__
+    state = state or {}
     if name == "ValueError":
-        s = str(e)
-        if "all values had length 0" in s:
-            return "Value:allZero"
-        if "At least one of" in s:
+        if state.get("no_keys"):
             return "Value:noKeys"
+        if state.get("maps") or state.get("empty_looped"):
+            return "Value:allZero"
         return "Value:other"
-    if name == "AttributeError" and "is already the label for a child" in str(e):
+    if name == "AttributeError" and state.get("labels_clash"):
         return "LabelClash"
     return {"KeyError": "Key", "TypeError": "Type", "ReadinessError": "Readiness",
             "FailedChildError": "FailedChild", "Livelock": "Livelock"}.get(name, f"Other({name})")
@@ -1096,7 +1101,12 @@ def _run_for(case):
                 if isinstance(ret, Future):
                     ret = ret.result()
             except Exception as e:  # noqa: BLE001
-                res = "err " + _exc_kind(e)
+                looped_now = [getattr(f.inputs[k], "value", None) for k in case["iter"] + case["zip"]] \
+                    if f is not None else []
+                cols_now = [(case["colmap"] or {}).get(o, o) for o in spec["outputs"]] + case["zip"] + case["iter"]
+                res = "err " + _exc_kind(e, {
+                    "empty_looped": any(isinstance(v, list) and len(v) == 0 for v in looped_now),
+                    "labels_clash": (not case["df"]) and len(set(cols_now)) != len(cols_now)})
                 err_text = f"{type(e).__name__}: {e}"[:300]
                 if f is not None:
                     f.failed = False
@@ -1200,7 +1210,7 @@ def _run_maps(case):
         order = [list(m.items()) for m in maps]
         res = "ok"
     except Exception as e:  # noqa: BLE001
-        res = _exc_kind(e)
+        res = _exc_kind(e, {"maps": True, "no_keys": case["nested"] is None and case["zipped"] is None})
         line = "maps err " + res
         struct, order = None, None
     return {"obs": [line], "maps": struct, "maps_items": order, "res": res,
@@ -1314,6 +1324,31 @@ def _reference(case, vals):
                     row[colmap.get(o, o)] = ref_canon((spec["sym"][o], *[env[k] for k in spec["inputs"]]))
             rows.append(row)
     return rows
+
+
+def _unordered(line):
+    """the statement constrains the NUMBER of children after re-runs and the rows / columns / their order, not the
+    position of a child inside `children` (creation order of bodies, get-item nodes and collectors): compare the
+    child list and the wiring entries as multisets"""
+    for tag in ("ch ", "wire "):
+        if line.startswith(tag):
+            return tag + " ".join(sorted(line[len(tag):].split(" ")))
+    return line
+
+
+def diff(case, impl, model):
+    view = corr_view(case, impl)
+    if view is None:
+        return None
+    a = [_unordered(x) for x in view]
+    b = [_unordered(x) for x in model]
+    if a == b:
+        return None
+    for i, (x, y) in enumerate(zip(a, b)):
+        if x != y:
+            return {"index": i, "impl": x, "model": y}
+    return {"index": min(len(a), len(b)), "impl": f"<{len(a)} lines>", "model": f"<{len(b)} lines>",
+            "impl_tail": a[-2:], "model_tail": b[-2:]}
 
 
 def corr_view(case, impl):
